@@ -729,6 +729,33 @@ def check_exchange(S, rec, rng):
         rec.sample({"request_line": f"{method} {line} {version}", "chunked_request": use_chunked, "status": status, "response_head": out.split(b"\r\n\r\n")[0].decode("latin-1")[:200]})
 
 
+def check_versionless_requests(S, rec, rng):
+    """Configuration combination: a request line without a version ("GET /path", what http.server calls HTTP/0.9) on a
+    handler that speaks HTTP/1.1, answered by an application that streams without a Content-Length.  Such a client gets
+    no status line and no headers - and so no chunk framing either: exactly the body bytes."""
+    for handler_version in ("HTTP/1.1", "HTTP/1.0"):
+        for chunks, with_cl in (([b"first piece\n", b"second\n"], False), ([b"only"], False), ([b"ab", b"", b"cd"], True), ([], False)):
+            payload = b"".join(chunks)
+
+            def app(environ, start_response):
+                start_response("200 OK", [("Content-Type", "text/plain")] + ([("Content-Length", str(len(payload)))] if with_cl else []))
+                return list(chunks)
+
+            case = {"part": "versionless-request", "handler": handler_version, "chunks": chunks, "with_content_length": with_cl}
+            rec.case()
+            rec.nontrivial(("versionless", handler_version, tuple(chunks), with_cl))
+            rec.observe("versionless_requests")
+            try:
+                out = drive(S, b"GET /plain?x=1\r\n\r\n", app, handler_version)
+            except Exception as e:  # noqa: BLE001
+                rec.observe("exchange_harness_errors")
+                rec.note(f"versionless harness error {type(e).__name__}: {e}")
+                continue
+            if out != payload:
+                rec.violation("C19/response-body-differs", f"'GET /plain' without a version on a {handler_version} handler: the application produced {payload!r}, the client received {out[:200]!r}", case, monitor="wire-parser")
+                return
+
+
 def check_two_requests_on_one_connection(S, rec, rng):
     """History on one connection: a request whose body the application does not read, then a second request (a client
     that asked for keep-alive and pipelines).  Whatever the server does with the connection, the application is only ever
@@ -868,6 +895,7 @@ def run(shard, rec, rng):
     for _ in range(cfg["exchanges"]):
         check_exchange(S, rec, rng)
     check_two_requests_on_one_connection(S, rec, rng)
+    check_versionless_requests(S, rec, rng)
     reach.finish()
     contracts.report(rec)
 
